@@ -96,7 +96,7 @@ def _add_sweep_metadata(sweep: cirq.Sweep, single_sweep: run_context_pb2.SingleS
         # Use duck-typing to support google-internal Parameter objects
         if getattr(metadata, 'path', None):
             single_sweep.parameter.path.extend(metadata.path)
-        if getattr(metadata, 'idx', None):
+        if getattr(metadata, 'idx', None) is not None:  # index 0 is an index
             single_sweep.parameter.idx = metadata.idx
         if getattr(metadata, 'units', None):
             single_sweep.parameter.units = metadata.units
